@@ -557,33 +557,96 @@ def body_phase(chk, hy, impl, batch, n_bodies, max_forms):
                 chk.fail("implicit-return", {"form": text}, repr(got), "('value', 'None')", "empty body")
 
 
-def async_gen_phase(chk, hy, impl):
-    """async generators do not return their last form (a return with a value there is a SyntaxError in Python)"""
-    srcs = ["(defn :async ag [] (yield 1) 2)", "(defn :async ag [] (yield 1) (yield 2))", "(defn :async ag [] 5 (yield 1) \"x\")",
-            "(setv ag (fn :async [] (yield 1) 2))"]
-    for src in srcs:
-        chk.case(("asyncgen", src), nontrivial=True)
-        chk.count("async-generator")
-        try:
-            env = {}
-            hy.eval(hy.read_many(src), locals=env, module=impl.mod)
-            ag = env["ag"]
+WRAPPERS = [
+    ("plain", "{}"),
+    ("let", "(let [q 1] {})"),
+    ("let-let", "(let [q 1] (let [r q] {}))"),
+    ("except-bound", "(try (raise (ValueError \"v\")) (except [e ValueError] {}))"),
+    ("try-body", "(try {} (except [e ValueError] 0))"),
+    ("try-else", "(try 0 (except [e ValueError] 0) (else {}))"),
+    ("try-finally", "(try {} (finally 0))"),
+    ("finally-body", "(try 0 (finally {}))"),
+    ("if", "(if True {} 0)"),
+    ("when", "(when True {})"),
+    ("cond", "(cond False 0 True {})"),
+    ("with", "(with [cm (nullcontext)] {})"),
+    ("do", "(do 0 {})"),
+    ("for", "(for [i [0]] {})"),
+    ("while", "(do (setv n 1) (while n (setv n 0) {}))"),
+    ("setv", "(setv got {})"),
+    ("call-arg", "(str {})"),
+    ("match-body", "(match 1 1 {})"),
+    ("match-capture", "(match 1 x {})"),
+]
 
-            async def drain():
-                return [x async for x in ag()]
-            got = ("value", repr(asyncio.run(drain())))
+
+def async_gen_phase(chk, hy, impl, n_combos=60):
+    """generators: a yield anywhere in the function's own body -- inside let, an except clause with a bound name,
+    try/else/finally, if, with, do, loops, match ... -- makes it a generator; an ASYNC generator must not implicitly
+    return its last form (Python rejects 'return' with a value there), an async non-generator must; in fn and defn"""
+    import contextlib
+    import inspect
+    rng = chk.rng
+    impl.mod.nullcontext = contextlib.nullcontext
+    shapes = [(name, tmpl) for name, tmpl in WRAPPERS]
+    for _ in range(n_combos):
+        (n1, t1), (n2, t2) = rng.choice(WRAPPERS[1:]), rng.choice(WRAPPERS[1:])
+        shapes.append((n1 + "/" + n2, t1.replace("{}", t2)))
+    for wname, tmpl in shapes:
+        yield_form = tmpl.replace("{}", "(yield 1)")
+        for tail in ("2", ""):           # a last form with a value after the yield / the yield form itself last
+            body = (yield_form + " " + tail).strip()
+            for is_async in (True, False):
+                for kind in ("defn", "fn"):
+                    a = ":async " if is_async else ""
+                    src = "(defn %sgen [] %s)" % (a, body) if kind == "defn" else "(setv gen (fn %s[] %s))" % (a, body)
+                    chk.case(("generator", src), nontrivial=True)
+                    chk.count("generator:%s:%s" % ("async" if is_async else "sync", kind))
+                    chk.count("generator-nesting:" + wname.split("/")[0])
+                    desc = {"form": src, "nesting": wname}
+                    try:
+                        env = {}
+                        hy.eval(hy.read_many(src), locals=env, module=impl.mod)
+                        g = env["gen"]
+                        if is_async:
+                            isgen = inspect.isasyncgenfunction(g)
+
+                            async def drain():
+                                return [x async for x in g()]
+                            got = ("value", isgen, repr(asyncio.run(drain()))) if isgen else ("value", isgen, "-")
+                        else:
+                            isgen = inspect.isgeneratorfunction(g)
+                            got = ("value", isgen, repr(list(g()))) if isgen else ("value", isgen, "-")
+                    except Exception as e:
+                        got = ("raises", type(e).__name__ + ": " + str(e)[:90])
+                    want = ("value", True, "[1]")
+                    if got != want:
+                        chk.fail("generator", desc, repr(got), repr(want),
+                                 "hy.eval of the form; then inspect.is%sgenfunction(gen) and the values it yields"
+                                 % ("async" if is_async else ""))
+    # a yield inside a NESTED function does not make the outer one a generator, and an async non-generator
+    # does return its last form
+    for src, want in (("(defn :async co [] 1 2)", "2"),
+                      ("(defn :async co [] (setv g (fn [] (yield 1))) 2)", "2"),
+                      ("(defn :async co [] (let [q 1] (setv g (fn [] (yield q)))) 3)", "3"),
+                      ("(setv co (fn :async [] (try 1 (except [e ValueError] 0)) 4))", "4")):
+        env = {}
+        chk.case(("async", src), nontrivial=True)
+        chk.count("async-non-generator")
+        try:
+            hy.eval(hy.read_many(src), locals=env, module=impl.mod)
+            got = outcome(lambda: asyncio.run(env["co"]()))
         except Exception as e:
-            got = ("raises", type(e).__name__ + ": " + str(e)[:80])
-        if got[0] != "value":
-            chk.fail("async-generator", {"form": src}, repr(got), "an async generator yielding its values", "hy.eval")
-    # and an async NON-generator does return its last form
-    src = "(defn :async co [] 1 2)"
-    env = {}
-    hy.eval(hy.read_many(src), locals=env, module=impl.mod)
-    got = outcome(lambda: asyncio.run(env["co"]()))
-    chk.case(("async", src), nontrivial=True)
-    if got != ("value", "2"):
-        chk.fail("implicit-return", {"form": src}, repr(got), "('value', '2')", "asyncio.run(co())")
+            got = ("raises", type(e).__name__)
+        if got != ("value", want):
+            chk.fail("implicit-return", {"form": src}, repr(got), repr(("value", want)), "asyncio.run(co())")
+    for src, want in (("(defn sf [] (setv g (fn [] (yield 1))) 5)", "5"),):
+        env = {}
+        chk.case(("sync", src), nontrivial=True)
+        hy.eval(hy.read_many(src), locals=env, module=impl.mod)
+        got = outcome(lambda: env["sf"]())
+        if got != ("value", want):
+            chk.fail("implicit-return", {"form": src}, repr(got), repr(("value", want)), "sf()")
 
 
 # ------------------------------------------------------------------ driver
@@ -639,7 +702,7 @@ def run_all(chk, hy, impl, model_ok, thorough):
             model_ok = False
     if not model_ok:
         oracle_only(chk, hy, impl, sigs, rng)
-    async_gen_phase(chk, hy, impl)
+    async_gen_phase(chk, hy, impl, 400 if thorough else 60)
 
 
 def oracle_only(chk, hy, impl, sigs, rng):
